@@ -12,6 +12,7 @@ pub mod h_panic;
 pub mod h_fin;
 pub mod h_api;
 pub mod h_count;
+pub mod h_trace;
 #[cfg(feature = "auto-collect")]
 pub mod h_policy;
 #[cfg(feature = "weak-ptrs")]
